@@ -5,6 +5,7 @@ import BSModel.Gen.Entities
 import BSModel.Gen.EntitiesFormatters
 import BSModel.Gen.EntitiesSource
 import BSModel.Model.EntitiesPopulate
+import BSModel.Model.EntitiesGlue
 namespace BS.Drv.C09
 open BS.Entities BS.Reader BS.Drv
 
@@ -70,6 +71,25 @@ def handle : List String → String
     let arg : Option (List PStr) := if cdataArg == "none" then none else some ((splitNE ";" cdataArg).map cps)
     let e := mkFormatter BS.Gen.C09.htmlDefaultCdata (lang == "x") fn.toNat! arg
     showL (formatterSubstitute T X e (if parent == "none" then none else some (cps parent)) (cps s))
+  | ["fmtstr", isXml, kind, a, b, parent, s] =>
+    -- format_string: kind = key (a = named bit, b = name) | callable (a = fn code) | custom (a = fn code, b = cdata arg)
+    let xml := isXml == "1"
+    let arg : FormatterArg :=
+      if kind == "key" then .key (a == "1") (cps b)
+      else if kind == "callable" then .callable a.toNat!
+      else .object (mkFormatter BS.Gen.C09.htmlDefaultCdata xml a.toNat!
+        (if b == "none" then none else some ((splitNE ";" b).map cps)))
+    match formatString T X BS.Gen.C09.htmlRegistry BS.Gen.C09.xmlRegistry BS.Gen.C09.htmlDefaultCdata xml arg
+        (if parent == "none" then none else some (cps parent)) (cps s) with
+    | none => "KeyError"
+    | some r => showL r
+  | ["fmtattr", reg, named, name, key, kind, v] =>
+    match findFormatter (regOf reg) (named == "1") (cps name) with
+    | none => "no-formatter"
+    | some e =>
+      let val : AttrVal := if kind == "absent" then .absent else if kind == "str" then .str (cps v)
+        else .list ((splitNE ";" v).map cps)
+      showL (formatAttribute T X e (cps key) val)
   | ["populate-live"] => showPopulate BS.Gen.C09.html5Items BS.Gen.C09.codepoint2name
   | ["populate", items, cp] => showPopulate (parseItems items) (parseCp2name cp)
   | ["all", s] =>
